@@ -455,7 +455,7 @@ spif_socket_accept(spif_socket_t self)
 spif_bool_t
 spif_socket_send(spif_socket_t self, spif_str_t data)
 {
-    size_t len;
+    size_t len, done;
     int num_written;
     struct timeval tv = { 0, 0 };
 
@@ -465,15 +465,21 @@ spif_socket_send(spif_socket_t self, spif_str_t data)
     len = spif_str_get_len(data);
     REQUIRE_RVAL(len > 0, FALSE);
 
-    num_written = write(self->fd, SPIF_STR_STR(data), len);
-    for (; (num_written < 0) && ((errno == EAGAIN) || (errno == EINTR)); ) {
-        tv.tv_usec += 10000;
-        if (tv.tv_usec == 1000000) {
-            tv.tv_usec = 0;
-            tv.tv_sec++;
+    /* write() may accept only part of the data:  keep going until all of it is out. */
+    for (done = 0, num_written = 0; done < len; ) {
+        num_written = write(self->fd, SPIF_STR_STR(data) + done, len - done);
+        if (num_written >= 0) {
+            done += num_written;
+        } else if ((errno == EAGAIN) || (errno == EINTR)) {
+            tv.tv_usec += 10000;
+            if (tv.tv_usec == 1000000) {
+                tv.tv_usec = 0;
+                tv.tv_sec++;
+            }
+            select(0, NULL, NULL, NULL, &tv);
+        } else {
+            break;
         }
-        select(0, NULL, NULL, NULL, &tv);
-        num_written = write(self->fd, SPIF_STR_STR(data), len);
     }
     if (num_written < 0) {
         D_OBJ(("Unable to write to socket %d -- %s\n", self->fd, strerror(errno)));
